@@ -318,8 +318,9 @@ def tasks(tier, seed):
     for tz in (["+0530"] if quick else ["+0530", "-0800", "+1245", "-0330"]):
         for p in ("past", "future"):
             add("time:%s:%s" % (p, tz), "h_time", {"pref": p, "tz": tz})
-    dz = ["America/New_York", "Europe/Paris", "Asia/Kolkata", "Australia/Lord_Howe"]
-    for j, z in enumerate(dz if not quick else [dz[seed % len(dz)]]):
+    from . import zones
+    dz = [z for z in ["America/New_York", "Europe/Paris", "Asia/Kolkata", "Australia/Lord_Howe"] if zones.usable(z, 2020, 2022)]
+    for j, z in enumerate(dz if not quick else dz[seed % max(1, len(dz)):][:1]):
         for p in (("past", "future") if quick else PREFS):
             add("time-dst:%s:%s" % (p, z), "h_time_dst", {"pref": p, "zone": z}, 240)
     months = sorted({2, seed % 12 + 1, (seed + 7) % 12 + 1}) if quick else range(1, 13)
